@@ -312,7 +312,7 @@ pub enum RE {
     Arity,
     /// OutOfBoundsAccess, IntFromUsize, IntIntoUsize.
     Range,
-    /// "An error raised by a builtin": any of Arith | Type | Arity | Range (C10: "an error").
+    /// "An error raised by a builtin" (C10: "an error", the variant is not pinned down).
     Builtin,
     /// D8: the exact result fits but Rust reports overflow: value or arithmetic error accepted.
     ArithOr(Box<RV>),
@@ -363,7 +363,9 @@ impl RE {
             (RE::Type, RE::Type) | (RE::Type, RE::Expected(..)) => true,
             (RE::Arity, RE::Arity) => true,
             (RE::Range, RE::Range) => true,
-            (RE::Builtin, a) => matches!(a, RE::Arith | RE::Type | RE::Expected(..) | RE::Arity | RE::Range),
+            // "an error" (C10 does not pin the variant): anything a builtin may return, but not the
+            // errors the evaluator itself raises when resolution goes wrong
+            (RE::Builtin, a) => !matches!(a, RE::VarNotFound(_) | RE::FnNotFound(_) | RE::NotMutable | RE::Build(_) | RE::Unclaimed(_)),
             (RE::ArithOr(_), RE::Arith) => true,
             (RE::VarNotFound(a), RE::VarNotFound(b)) => a == b,
             (RE::FnNotFound(a), RE::FnNotFound(b)) => a == b,
